@@ -369,6 +369,11 @@ type Node struct {
 // Walk projects the whole tree through ReadDir/Open/Read.  Names "." and ".." and
 // lost+found are filtered by rule.
 func Walk(fs filesystem.FileSystem, limit int64) (tree map[string]*Node, err error) {
+	return WalkSkip(fs, limit, nil)
+}
+
+// WalkSkip is Walk, but does not read the content of files for which skip returns true.
+func WalkSkip(fs filesystem.FileSystem, limit int64, skip func(path string) bool) (tree map[string]*Node, err error) {
 	tree = map[string]*Node{}
 	var rec func(dir string, depth int) error
 	rec = func(dir string, depth int) error {
@@ -405,6 +410,9 @@ func Walk(fs filesystem.FileSystem, limit int64) (tree map[string]*Node, err err
 				n.Kind = "file"
 				if info, err := e.Info(); err == nil {
 					n.Size = info.Size()
+				}
+				if skip != nil && skip(p) {
+					continue
 				}
 				f, err := fs.OpenFile(p, os.O_RDONLY)
 				if err != nil {
